@@ -10,6 +10,10 @@ use std::collections::BTreeMap;
 
 fn pre_alphabet(kind: &Kind) -> Vec<Op> {
     let mut v = vec![Op::Item(1), Op::Item(2), Op::Item(0), Op::Burst(100, 12), Op::Slice(vec![0, 4]), Op::Slice(vec![])];
+    if kind.name.contains("NoHash") {
+        // pre-hashed data: the boundary hash u64::MAX (the initial content of many registers) in the history
+        v.push(Op::Item(u64::MAX));
+    }
     if kind.has_end {
         v.push(Op::End);
     }
